@@ -2,6 +2,8 @@ import LcmProofs.Laws
 import LcmProofs.Congr
 import LcmProofs.FuncPerm
 import LcmProofs.EnvPerm
+import LcmProofs.SpecPerm
+import LcmProps.C01
 namespace Lcm
 
 /-! # C10 — equivalent model specifications yield equal solutions (partial)
@@ -9,10 +11,21 @@ namespace Lcm
 Proved at the specification level: the value of a state is a maximum over a *set* of admissible choices
 (`IsMaxOver`, order-free), so it cannot depend on enumeration order, on how a restriction is classified, or on
 always-true restrictions; and the by-name evaluation of the model functions reads environments only through
-lookups, so the order of declarations / of arguments is irrelevant. Not proved in Lean (covered by the
-metamorphic correspondence only): that the *layout re-indexing* of `solve`'s arrays under a permutation of the
-declarations is the one C05 describes for both specifications simultaneously, and consistent renaming (needs a
-commutation lemma for every name-handling function: `next_` prefix, `_filter` / `_constraint` suffixes). -/
+lookups, so the order of declarations / of arguments is irrelevant.
+
+Proved for the executable `solve` itself, **last period, layout re-indexing included**
+(`C10_last_period_entries_agree_restricted` / `_unrestricted`): for two specifications that declare the same states,
+choices and functions in different orders, the stored entries of the two last-period arrays that belong to the same
+named state are equal - whatever axes, feasible-ranks and group orders the two layouts have. The proof goes through
+the specification level: each entry is `specV` of its state (`C01_entry_eq_spec_*`), and `specV … none` is invariant
+under permuting declarations (`C10_last_period_value_of_state`: enumeration order by `assignments_perm`, lookups by
+`envEq_of_perm`, function lookup by `find?_func_perm`, conjunction order by `allTrue_perm`).
+
+Not proved in Lean (covered by the metamorphic correspondence only): the same statement for earlier periods - it needs,
+in addition, that the two continuation functions `vhat` agree as functions of the named state, i.e. invariance of the
+multilinear interpolation under permuting continuous axes jointly with the feasible-rank re-indexing - and consistent
+renaming (needs a commutation lemma for every name-handling function: `next_` prefix, `_filter` / `_constraint`
+suffixes). -/
 
 /-- the value is determined by the admissible set and the objective on it: two specifications with the same
 admissible choices and the same objective have the same value at that state -/
@@ -61,6 +74,98 @@ theorem C10_variable_order_irrelevant (a b : List (Name × Rat)) (hp : a.Perm b)
 (stated for two restrictions; `allTrue` folds `&&` over the list) -/
 theorem C10_conjunction_order (a b : Bool) : (true && a && b) = (true && b && a) := by
   cases a <;> cases b <;> rfl
+
+/-- **last-period value of a named state**: two specifications declaring the same states, choices and functions in
+different orders give the same value to the same state -/
+theorem C10_last_period_value_of_state {m m' : Model} (h : PermOf m m') (hnd : (m.functions.map (·.name)).Nodup)
+    (P : Params) (g g' : Groups) (t : Nat) (st st' : List (Name × Rat)) (hst : st.Perm st')
+    (hkeys : (st.map (·.1) ++ m.choices.map (·.1)).Nodup) :
+    specV m P g t none st = specV m' P g' t none st' :=
+  specV_last_perm h hnd P g g' t st st' hst hkeys
+
+theorem PermOf.names_nodup {m m' : Model} (h : PermOf m m') (hnd : ((m.states ++ m.choices).map (·.1)).Nodup) :
+    ((m'.states ++ m'.choices).map (·.1)).Nodup :=
+  (((h.states.append h.choices).map (·.1)).nodup_iff).mp hnd
+
+theorem nextOf_last (m : Model) (P : Params) (V : List (Tensor Ext)) (t : Nat) (ht : t + 1 = m.nPeriods) :
+    nextOf m P V t = none := by
+  unfold nextOf
+  split
+  · omega
+  · rfl
+
+/-- **the last-period arrays of `solve`, layout re-indexing included** (both specifications have filter-restricted
+variables): entries that belong to the same named state are equal -/
+theorem C10_last_period_entries_agree_restricted {m m' : Model} (h : PermOf m m')
+    (hfn : (m.functions.map (·.name)).Nodup) (hnd : ((m.states ++ m.choices).map (·.1)).Nodup)
+    (P : Params) (t : Nat) (ht : t + 1 = m.nPeriods)
+    (hsparse : (!((groups m).sS.isEmpty && (groups m).sC.isEmpty)) = true)
+    (hsparse' : (!((groups m').sS.isEmpty && (groups m').sC.isEmpty)) = true)
+    (k : Nat) (hk : k < (feasOf m P t).length) (dIdx xIdx : List Nat)
+    (hd : InBounds (sizes (groups m).dS) dIdx) (hx : InBounds (sizes (cStateGrids (groups m))) xIdx)
+    (k' : Nat) (hk' : k' < (feasOf m' P t).length) (dIdx' xIdx' : List Nat)
+    (hd' : InBounds (sizes (groups m').dS) dIdx') (hx' : InBounds (sizes (cStateGrids (groups m'))) xIdx')
+    (hsame : ((feasOf m P t)[k] ++ pickAt (groups m).dS dIdx ++ pickAt (cStateGrids (groups m)) xIdx).Perm
+      ((feasOf m' P t)[k'] ++ pickAt (groups m').dS dIdx' ++ pickAt (cStateGrids (groups m')) xIdx')) :
+    ((solve m P true).getD t default).get (k :: (dIdx ++ xIdx))
+      = ((solve m' P true).getD t default).get (k' :: (dIdx' ++ xIdx')) := by
+  have ht1 : t < m.nPeriods := by omega
+  have ht1' : t < m'.nPeriods := by rw [h.periods]; exact ht1
+  have ht' : t + 1 = m'.nPeriods := by rw [h.periods]; exact ht
+  rw [C01_entry_eq_spec_restricted m P t ht1 hsparse k hk dIdx xIdx hd hx hnd,
+    C01_entry_eq_spec_restricted m' P t ht1' hsparse' k' hk' dIdx' xIdx' hd' hx' (h.names_nodup hnd),
+    nextOf_last m P _ t ht, nextOf_last m' P _ t ht']
+  apply specV_last_perm h hfn P _ _ t _ _ hsame
+  have hdl : dIdx.length = (groups m).dS.length := by rw [inBounds_length _ _ hd, sizes_length]
+  have hxl : xIdx.length = (cStateGrids (groups m)).length := by rw [inBounds_length _ _ hx, sizes_length]
+  have hs : (feasOf m P t)[k] ∈ assignments (groups m).sS := List.mem_of_mem_filter (List.getElem_mem hk)
+  simp only [List.map_append]
+  rw [assignments_keys _ _ hs, pickAt_keys _ _ hdl, pickAt_keys _ _ hxl]
+  exact gridState_choice_names_nodup m hnd
+
+/-- the same for specifications without filter-restricted variables (and without variable-free filters that fail:
+`solve` does not evaluate those) -/
+theorem C10_last_period_entries_agree_unrestricted {m m' : Model} (h : PermOf m m')
+    (hfn : (m.functions.map (·.name)).Nodup) (hnd : ((m.states ++ m.choices).map (·.1)).Nodup)
+    (P : Params) (t : Nat) (ht : t + 1 = m.nPeriods)
+    (hdense : (!((groups m).sS.isEmpty && (groups m).sC.isEmpty)) = false)
+    (hdense' : (!((groups m').sS.isEmpty && (groups m').sC.isEmpty)) = false)
+    (dIdx xIdx : List Nat)
+    (hd : InBounds (sizes (groups m).dS) dIdx) (hx : InBounds (sizes (cStateGrids (groups m))) xIdx)
+    (dIdx' xIdx' : List Nat)
+    (hd' : InBounds (sizes (groups m').dS) dIdx') (hx' : InBounds (sizes (cStateGrids (groups m'))) xIdx')
+    (hfs : allTrue m P (toEnv (pickAt (groups m).dS dIdx ++ pickAt (cStateGrids (groups m)) xIdx) ++ periodEnv t)
+      (filterNames m) = some true)
+    (hfs' : allTrue m' P (toEnv (pickAt (groups m').dS dIdx' ++ pickAt (cStateGrids (groups m')) xIdx') ++ periodEnv t)
+      (filterNames m') = some true)
+    (hsame : (pickAt (groups m).dS dIdx ++ pickAt (cStateGrids (groups m)) xIdx).Perm
+      (pickAt (groups m').dS dIdx' ++ pickAt (cStateGrids (groups m')) xIdx')) :
+    ((solve m P true).getD t default).get (dIdx ++ xIdx)
+      = ((solve m' P true).getD t default).get (dIdx' ++ xIdx') := by
+  have ht1 : t < m.nPeriods := by omega
+  have ht1' : t < m'.nPeriods := by rw [h.periods]; exact ht1
+  have ht' : t + 1 = m'.nPeriods := by rw [h.periods]; exact ht
+  rw [C01_entry_eq_spec_unrestricted m P t ht1 hdense dIdx xIdx hd hx hnd hfs,
+    C01_entry_eq_spec_unrestricted m' P t ht1' hdense' dIdx' xIdx' hd' hx' (h.names_nodup hnd) hfs',
+    nextOf_last m P _ t ht, nextOf_last m' P _ t ht']
+  apply specV_last_perm h hfn P _ _ t _ _ hsame
+  have hdl : dIdx.length = (groups m).dS.length := by rw [inBounds_length _ _ hd, sizes_length]
+  have hxl : xIdx.length = (cStateGrids (groups m)).length := by rw [inBounds_length _ _ hx, sizes_length]
+  have hemp : ((groups m).sS.isEmpty && (groups m).sC.isEmpty) = true := by simpa using hdense
+  simp only [Bool.and_eq_true, List.isEmpty_iff] at hemp
+  simp only [List.map_append]
+  rw [pickAt_keys _ _ hdl, pickAt_keys _ _ hxl]
+  have := gridState_choice_names_nodup m hnd
+  rw [hemp.1] at this
+  simpa using this
+
+/-- the F1 witness with its functions and (single) variables declared in another order -/
+def Ex.f1Model' : Model := { Ex.f1Model with functions := Ex.f1Model.functions.reverse }
+
+example : PermOf Ex.f1Model Ex.f1Model' :=
+  ⟨rfl, List.Perm.refl _, List.Perm.refl _, (List.reverse_perm _).symm⟩
+example : (Ex.f1Model.functions.map (·.name)).Nodup := by decide
+#guard ((solve Ex.f1Model' Ex.f1Params).getD 1 default).toFlat == ((solve Ex.f1Model Ex.f1Params).getD 1 default).toFlat
 
 -- non-vacuity
 example : bellmanStep [0, 1, 2] (fun x => x != 1) (fun x => (x : Rat)) (fun _ => 0) 1
